@@ -80,15 +80,15 @@ PROPS["C06"] = {
           timeout=300, mem_gb=6),
         H("mapping_delta_k2", "sourcemap-writer", SW + "source_writer/mapping_writer.rs", "sourcemap_writer/mapping_h.rs", "verif_mapping",
           ["MappingWriter::new", "MappingWriter::add_entry", "MappingWriter::into_buffer"],
-          "every sequence of 2 add_entry calls; all positions/indices symbolic in [0, 2^62); generated line non-decreasing",
+          "every sequence of 2 add_entry calls; columns, original positions, source and name indices symbolic in [0, 2^62); generated line non-decreasing, advancing by 0..3 per entry",
           timeout=600, mem_gb=8),
         H("mapping_delta_k3", "sourcemap-writer", SW + "source_writer/mapping_writer.rs", "sourcemap_writer/mapping_h.rs", "verif_mapping",
           ["MappingWriter::new", "MappingWriter::add_entry", "MappingWriter::into_buffer"],
-          "every sequence of 3 add_entry calls; all positions/indices symbolic in [0, 2^62); generated line non-decreasing",
+          "every sequence of 3 add_entry calls; columns, original positions, source and name indices symbolic in [0, 2^62); generated line non-decreasing, advancing by 0..3 per entry",
           timeout=900, mem_gb=10),
         H("mapping_delta_k4", "sourcemap-writer", SW + "source_writer/mapping_writer.rs", "sourcemap_writer/mapping_h.rs", "verif_mapping",
           ["MappingWriter::new", "MappingWriter::add_entry", "MappingWriter::into_buffer"],
-          "every sequence of 4 add_entry calls; all positions/indices symbolic in [0, 2^62); generated line non-decreasing",
+          "every sequence of 4 add_entry calls; columns, original positions, source and name indices symbolic in [0, 2^62); generated line non-decreasing, advancing by 0..3 per entry",
           timeout=900, mem_gb=10),
         H("utf16_len_3chars", "sourcemap-writer", SW + "source_writer/utf16_len.rs", "sourcemap_writer/utf16_h.rs", "verif_utf16",
           ["utf16_len"], "strings of 0..3 arbitrary Unicode scalar values (all 0x110000-0x800 of them per position)",
@@ -107,20 +107,16 @@ PROPS["C20"] = {
     ],
     "outside": "how a string splits into components (separators, //, trailing /, non-UTF-8, Windows prefixes); the consumers in cli/src/generate.rs (path_to_ts, import specifiers, `sources`) and print_source_map_json",
     "harnesses": [
-        H("normalize_spec_n3", "nitrogql-utils", RP, "utils/relpath_h.rs", "verif_relpath", ["normalize_path"],
-          "/ + up to 3 symbolic components from {x, y, ., ..}", timeout=600, mem_gb=8),
-        H("inverse_law_2x2", "nitrogql-utils", RP, "utils/relpath_h.rs", "verif_relpath", _RPF,
-          "a, b: / + up to 2 symbolic components each from {x, y, ., ..}", timeout=900, mem_gb=12),
-        H("resolve_spec_3x3", "nitrogql-utils", RP, "utils/relpath_h.rs", "verif_relpath", ["resolve_relative_path", "normalize_path"],
-          "a: / + up to 3 components; relative path: up to 3 components from {x, y, ., ..}", timeout=900, mem_gb=12),
         H("normalize_spec_n5", "nitrogql-utils", RP, "utils/relpath_h.rs", "verif_relpath", ["normalize_path"],
-          "/ + up to 5 symbolic components from {x, y, ., ..}", tiers=("thorough",), timeout=2400, mem_gb=12),
-        H("inverse_law_3x3", "nitrogql-utils", RP, "utils/relpath_h.rs", "verif_relpath", _RPF,
-          "a, b: / + up to 3 symbolic components each from {x, y, ., ..}", tiers=("thorough",), timeout=3000, mem_gb=20),
+          "/ + up to 5 symbolic components from {x, y, ., ..}", timeout=900, mem_gb=10),
         H("resolve_spec_4x4", "nitrogql-utils", RP, "utils/relpath_h.rs", "verif_relpath", ["resolve_relative_path", "normalize_path"],
-          "a: / + up to 4 components; relative path: up to 4 components", tiers=("thorough",), timeout=2400, mem_gb=12),
+          "a: / + up to 4 components; relative path: up to 4 components from {x, y, ., ..}", timeout=900, mem_gb=10),
+        H("inverse_law_3x3", "nitrogql-utils", RP, "utils/relpath_h.rs", "verif_relpath", _RPF,
+          "a, b: / + up to 3 symbolic components each from {x, y, ., ..}", timeout=1500, mem_gb=16),
         H("relpath_no_panic_unconstrained_2x2", "nitrogql-utils", RP, "utils/relpath_h.rs", "verif_relpath", _RPF,
-          "a, b: / + up to 2 symbolic components, NO no-climb precondition; panic freedom only", timeout=900, mem_gb=12, has_mutant=False),
+          "a, b: / + up to 2 symbolic components, NO no-climb precondition; panic freedom only", timeout=1200, mem_gb=12, has_mutant=False),
+        H("inverse_law_4x4", "nitrogql-utils", RP, "utils/relpath_h.rs", "verif_relpath", _RPF,
+          "a, b: / + up to 4 symbolic components each from {x, y, ., ..}", tiers=("thorough",), timeout=10800, mem_gb=30),
     ],
 }
 
